@@ -63,6 +63,9 @@ func selftestDeterminism(args []string) int {
 			n = "80"
 			reps = 5
 		}
+		if v := os.Getenv("SELFTEST_SEEDS"); v != "" {
+			n = v
+		}
 		var ref []string
 		k := 0
 		for _, procs := range []string{"1", "4", "16"} {
